@@ -210,7 +210,9 @@ GammaIncChecks(p) ==
              Panics("GammaIncReg:x<0", P(X(a), X(R(0 - 1, 2)))), Panics("GammaIncRegComp:x<0", Q(X(a), X(R(0 - 1, 2)))),
              Panics("GammaIncReg:a=0", P(XI(0), XI(1))), Panics("GammaIncReg:a<0", P(Neg(X(a)), XI(1))),
              Panics("GammaIncRegComp:a=0", Q(XI(0), XI(1))), Panics("GammaIncRegComp:a<0", Q(Neg(X(a)), XI(1))),
-             Panics("GammaIncReg:a<=0,x=0", P(Neg(X(a)), XI(0))), Panics("GammaIncRegComp:a<=0,x=0", Q(Neg(X(a)), XI(0))),
+             \* (a <= 0 together with x = 0 is left open: the documentation says panic, the repository's own
+             \*  TestGammaIncReg expects GammaIncReg(0, 0) = 0 - either outcome is accepted, so no case is emitted)
+             Panics("GammaIncRegComp:a<=0,x=0", Q(Neg(X(a)), XI(0))),
              Panics("GammaIncRegInv:y<0", F2(GPI, X(a), X(R(0 - 1, 4)))), Panics("GammaIncRegInv:y>1", F2(GPI, X(a), X(R(3, 2)))),
              Panics("GammaIncRegInv:a<=0", F2(GPI, Neg(X(a)), X(Half))),
              Panics("GammaIncRegCompInv:y<0", F2(GQI, X(a), X(R(0 - 1, 4)))), Panics("GammaIncRegCompInv:y>1", F2(GQI, X(a), X(R(3, 2)))),
